@@ -88,6 +88,7 @@ def check(ctx):
 
     # ---- wrappers --------------------------------------------------------------------------
     update_keys = {}
+    splat_unknown = set()
     n_wr = 0
     for name, (wn, node) in sorted(covered.items()):
         wf = m.functions.get(wn)
@@ -173,7 +174,32 @@ def check(ctx):
                     for kw in c.keywords:
                         if kw.arg:
                             update_keys.setdefault(kw.arg, []).append((qn, kw.value))
+                        elif isinstance(kw.value, ast.Name):
+                            # update(**name): keys of the dict display / dict(...) call bound to the name plus `name["k"] = v` stores
+                            got_any = False
+                            for st_ in walk_shallow(inner):
+                                if isinstance(st_, ast.Assign) and len(st_.targets) == 1:
+                                    t_ = st_.targets[0]
+                                    if isinstance(t_, ast.Name) and t_.id == kw.value.id:
+                                        v_ = st_.value
+                                        if isinstance(v_, ast.Dict) and all(isinstance(k_, ast.Constant) and isinstance(k_.value, str) for k_ in v_.keys):
+                                            for k_, val_ in zip(v_.keys, v_.values):
+                                                update_keys.setdefault(k_.value, []).append((qn, val_))
+                                            got_any = True
+                                        elif isinstance(v_, ast.Call) and call_name(v_) == "dict" and not v_.args:
+                                            for k2 in v_.keywords:
+                                                if k2.arg:
+                                                    update_keys.setdefault(k2.arg, []).append((qn, k2.value))
+                                            got_any = True
+                                    elif isinstance(t_, ast.Subscript) and isinstance(t_.value, ast.Name) and t_.value.id == kw.value.id \
+                                            and isinstance(t_.slice, ast.Constant) and isinstance(t_.slice.value, str):
+                                        update_keys.setdefault(t_.slice.value, []).append((qn, st_.value))
+                                        got_any = True
+                            if not got_any:
+                                splat_unknown.add(qn.split(".")[-1])
+                                rep.unknown("R-C73-keys", f"{m.relpath}:{qn}", f"update(**{kw.value.id}) whose keys are not literal")
                         else:
+                            splat_unknown.add(qn.split(".")[-1])
                             rep.unknown("R-C73-keys", f"{m.relpath}:{qn}", "update(**kwargs) with non-literal keys")
             p = cfg.path_avoiding(u.id, cfg.exit, is_record)
             if p is not None:
@@ -208,6 +234,8 @@ def check(ctx):
         for k in sorted(need):
             if k in have:
                 rep.proved("R-C73-keys", f"{m.relpath}:{ep} key {k}", "updated by the wrapper of this entry point")
+            elif ep in splat_unknown:
+                rep.unknown("R-C73-keys", f"{m.relpath}:{ep} key {k}", "the wrapper updates the tracker through a ** mapping whose keys are not literal")
             else:
                 rep.refuted("R-C73-keys", m.relpath, f"_track_{ep}.<locals>.{ep}", f"{k}=...",
                             f"the {ep} wrapper never updates tracker key {k!r}, which the property names among the totals the tracker reports")
@@ -354,7 +382,26 @@ def _raw_uses(rep, m, qn, inner, circ, wrapped):
         return isinstance(t, ast.Call) and call_name(t) == "isinstance" and t.args and isinstance(t.args[0], ast.Name) \
             and t.args[0].id == circ and "QuantumScript" in norm(t.args[1])
 
+    def helper_kind(call):
+        """'normaliser' when the called same-module function wraps a single QuantumScript into a tuple/list and returns batches as they are;
+        'unknown' for any other function of the module; None for builtins / other callees"""
+        if not (isinstance(call.func, ast.Name) and call.func.id in m.functions):
+            return None
+        g = m.functions[call.func.id].node
+        gp = [a.arg for a in g.args.args]
+        if not gp:
+            return "unknown"
+        p0 = gp[0]
+        single = [t for t in ast.walk(g) if isinstance(t, ast.Call) and call_name(t) == "isinstance" and t.args and isinstance(t.args[0], ast.Name)
+                  and t.args[0].id == p0 and "QuantumScript" in norm(t.args[1])]
+        rets = [r.value for r in ast.walk(g) if isinstance(r, ast.Return) and r.value is not None]
+        wraps = any(isinstance(r, (ast.Tuple, ast.List)) and len(r.elts) == 1 and isinstance(r.elts[0], ast.Name) and r.elts[0].id == p0 for r in rets) or any(
+            isinstance(r, ast.IfExp) and isinstance(r.body, (ast.Tuple, ast.List)) for r in rets)
+        passes = any(isinstance(r, ast.Name) and r.id == p0 for r in rets) or any(isinstance(r, ast.IfExp) and isinstance(r.orelse, ast.Name) for r in rets)
+        return "normaliser" if single and wraps and passes else "unknown"
+
     bad = []
+    undecided = []
     n_norm = 0
     for n in walk_shallow(inner):
         if not (isinstance(n, ast.Name) and n.id == circ and isinstance(n.ctx, ast.Load)):
@@ -362,6 +409,14 @@ def _raw_uses(rep, m, qn, inner, circ, wrapped):
         # climb
         cur, okay = n, False
         direct = parents.get(n)
+        if isinstance(direct, ast.Call) and n in direct.args:
+            hk = helper_kind(direct)
+            if hk == "normaliser":
+                n_norm += 1
+                continue
+            if hk == "unknown":
+                undecided.append(n)
+                continue
         while cur in parents:
             p = parents[cur]
             if isinstance(p, ast.Call) and is_single_test(p):
@@ -390,8 +445,10 @@ def _raw_uses(rep, m, qn, inner, circ, wrapped):
         rep.refuted("R-C73-pair", m.relpath, qn, stmt,
                     f"raw `{circ}` is used for counting/iteration without the single-QuantumScript normalisation: for a single tape "
                     "len()/iteration ranges over its operations and measurements, not over one circuit")
-    if not bad:
-        rep.proved("R-C73-pair", f"{m.relpath}:{qn} normalisation", f"raw `{circ}` only reaches the wrapped call, the isinstance test or the non-single branch")
+    for n in undecided:
+        rep.unknown("R-C73-pair", f"{m.relpath}:{qn} L{n.lineno}", f"raw `{circ}` is handed to a helper of the module that is not recognised as the normalisation")
+    if not bad and not undecided:
+        rep.proved("R-C73-pair", f"{m.relpath}:{qn} normalisation", f"raw `{circ}` only reaches the wrapped call, the isinstance test, a normalising helper or the non-single branch")
 
 
 def _tracker(ix, rep):
@@ -411,12 +468,33 @@ def _tracker(ix, rep):
     lp = loops[0]
     kname, vname = (lp.target.elts[0].id, lp.target.elts[1].id) if isinstance(lp.target, ast.Tuple) else (None, None)
     body_src = norm(ast.Module(body=lp.body, type_ignores=[]))
-    appended = any(isinstance(n, ast.Call) and isinstance(n.func, ast.Attribute) and n.func.attr == "append" and "history" in norm(n.func.value)
-                   and n.args and isinstance(n.args[0], ast.Name) and n.args[0].id == vname for b in lp.body for n in ast.walk(b))
-    created = any(isinstance(n, ast.Assign) and "history" in norm(n.targets[0]) and isinstance(n.value, ast.List) and len(n.value.elts) == 1
-                  and isinstance(n.value.elts[0], ast.Name) and n.value.elts[0].id == vname for b in lp.body for n in ast.walk(b))
+    def history_writes(nodes, vn):
+        app = any(isinstance(n, ast.Call) and isinstance(n.func, ast.Attribute) and n.func.attr == "append" and "history" in norm(n.func.value)
+                  and n.args and isinstance(n.args[0], ast.Name) and n.args[0].id == vn for b in nodes for n in ast.walk(b))
+        cre = any(isinstance(n, ast.Assign) and "history" in norm(n.targets[0]) and isinstance(n.value, ast.List) and len(n.value.elts) == 1
+                  and isinstance(n.value.elts[0], ast.Name) and n.value.elts[0].id == vn for b in nodes for n in ast.walk(b))
+        return app, cre
+    appended, created = history_writes(lp.body, vname)
+    helper_seen = False
+    if not (appended and created):
+        # a helper method of Tracker that receives the value: look one call deep (self._append_to_history(key, value))
+        for b in lp.body:
+            for c in ast.walk(b):
+                if isinstance(c, ast.Call) and isinstance(c.func, ast.Attribute) and isinstance(c.func.value, ast.Name) and c.func.value.id == "self":
+                    g = T.own_method(c.func.attr)
+                    pos = [i for i, a_ in enumerate(c.args) if isinstance(a_, ast.Name) and a_.id == vname]
+                    if g is None or not pos:
+                        continue
+                    helper_seen = True
+                    gp = [x.arg for x in g.node.args.args][1:]
+                    if pos[0] < len(gp):
+                        a2, c2 = history_writes(g.node.body, gp[pos[0]])
+                        appended, created = appended or a2, created or c2
+    mentions_history = any("history" in norm(b) for b in lp.body)
     if appended and created:
         rep.proved("R-C73-tracker", f"{TRK}:Tracker.update history", "every value is appended (or starts a list) in call order")
+    elif helper_seen or (mentions_history and (appended or created)):
+        rep.unknown("R-C73-tracker", f"{TRK}:Tracker.update history", "the history update is written in a form this rule does not follow")
     else:
         rep.refuted("R-C73-tracker", TRK, "Tracker.update", lp, "history is not extended with every updated value in call order")
     tot = [n for b in lp.body for n in ast.walk(b) if isinstance(n, ast.Assign) and "totals" in norm(n.targets[0])]
